@@ -1,11 +1,16 @@
 #!/bin/bash
-# usage: runall.sh quick|thorough [ids...]  - runs the registered checks sequentially, one summary line each
+# usage: runall.sh quick|thorough [ids...]  - runs the registered checks sequentially, one summary line each.
+# Works from /verif or from a snapshot of it (vp run): harnesses are taken from the directory this script lives in.
 tier=$1; shift
 ids="$@"; [ -z "$ids" ] && ids="C01 C02 C03 C04 C05 C06 C07 C08 C09 C10 C12 C13 C14 C15 C16 C17 C18 C20"
-cd /verif
+ROOT=$(cd "$(dirname "$0")/.." && pwd)
+export VCHECK_VERIF_DIR=$ROOT
+mkdir -p $ROOT/bin $ROOT/logs
+[ "$ROOT" != /verif ] && cp /verif/bin/vcheck $ROOT/bin/vcheck
+cd $ROOT
 for id in $ids; do
   s=$(date +%s)
-  timeout 7200 ./bin/vcheck $id --tier $tier > /tmp/runall_$id.$tier.log 2>&1; rc=$?
+  timeout ${RUNALL_TIMEOUT:-7200} ./bin/vcheck $id --tier $tier > logs/$id.$tier.log 2>&1; rc=$?
   e=$(( $(date +%s) - s ))
-  echo "$id $tier rc=$rc ${e}s $(grep -c '^KNOWN-FINDING' /tmp/runall_$id.$tier.log) known, $(grep -c '^VIOLATION' /tmp/runall_$id.$tier.log) viol, $(grep -c 'INCONCLUSIVE' /tmp/runall_$id.$tier.log) inconc"
+  echo "$id $tier rc=$rc ${e}s $(grep -c '^KNOWN-FINDING' logs/$id.$tier.log) known, $(grep -c '^VIOLATION' logs/$id.$tier.log) viol, $(grep -c 'INCONCLUSIVE' logs/$id.$tier.log) inconc"
 done
